@@ -73,8 +73,37 @@ claim('C17',
       'model of the listed known finding (scalar global mean) is proved instead, so that every other part of the '
       'formula stays under check.', _TB + 'Known finding C17-scalar-centre.', 'DESIGN.md section 5, C17')
 
+claim('C02',
+      'Conditional clause only, decomposed into per-step exactness obligations of the ADMM iteration, each decided on '
+      'the real code: soft-threshold prox (all reals), class-wise lambda sums, the Z-update as exact block-Toeplitz '
+      'minimiser (symbolic x,u,rho, scalar and matrix lambda), the U-update, the X-update (matrix handed to eigh, '
+      'eigenvalue stationarity for all real d and rho>0, orientation/scale with a symbolic orthogonal 2x2 q), the '
+      'stopping rule, and the driver against a reference iteration with a symbolic iteration budget and optional rho '
+      'callback. From these, epsilon-optimality at the stopping rule follows by the cited ADMM residual argument.',
+      _TB + 'The passage from per-step exactness to epsilon-optimality is textbook reasoning (Boyd et al. 2010 s3.3), '
+      'not a solver result; the unconditional convergence clause is outside the claim; eigh is a contract stub.',
+      'DESIGN.md section 5, C02')
+claim('C03',
+      'IEEE binary64 (z3 FloatingPoint) execution of the real x_update_prox eigenvalue map with q=I: every finite '
+      'eigenvalue |d|<=2^44 gives a finite, strictly positive precision eigenvalue; binary64 execution of the real floor '
+      'filter on arbitrary bit patterns (NaN, inf, -0, subnormals) and arbitrary eps>=0; real-arithmetic positivity '
+      'for all d, rho>0; symmetric reinflation; log-determinant range side condition for Theta=t*I_n, n<=200.',
+      _TB + 'LAPACK rounding in eigh/q is not modelled (contract stub); FP64 only where stated.', 'DESIGN.md section 5, C03')
+claim('C07',
+      'The mask helper on symbolic tuples of stacked lengths (up to 6 series); the real joint front end down to the '
+      'real labelling kernel with a spy on the switching cost that reaches it; optimality of the joint labelling against '
+      'a symbolic rival under within-series pricing; joint stacking vs per-series stacking on opaque payloads; joint of '
+      'one series vs the single front end in one path (term-equal results).',
+      _TB + 'Known findings C07-mask-dropped / C07-joint-labelling-prices-boundary-pairs (not repairable without '
+      'changing the pinned joint-run results).', 'DESIGN.md section 5, C07')
+claim('C09',
+      'The real fit_stacked_data with every phase replaced by a recording summary and a fresh symbolic labelling per '
+      'round: every pattern of equal/different consecutive labellings and every iteration limit in the bound is '
+      'explored; round count, phase order and data flow, the stop-iff-fixed-point rule, what is returned and scored, '
+      'and pool handling are discharged per path.', _TB, 'DESIGN.md section 5, C09')
+
 _PENDING = 'check not built yet in this round (design in DESIGN.md section 5); will be claimed when its harness lands'
-for _p in ['C02', 'C03', 'C07', 'C09', 'C14', 'C18', 'C19', 'C20']:
+for _p in ['C14', 'C18', 'C19', 'C20']:
     na(_p, _PENDING)
 na('C15', 'compares Numba-generated machine code (LLVM/NRT/BLAS calls, prange threads) with the interpreted source; '
           'no engine in this sandbox executes that symbolically and a hand IR->SMT translator for allocating, '
